@@ -58,6 +58,9 @@ pub struct Env {
     pub names: Option<Vec<String>>,
     /// place the type in a module that shadows the prelude names
     pub shadow: bool,
+    /// prefixes by which generated bindings are derived from field names (`_s_`, `_o_`, `v_`, `_`, ..): some
+    /// fields are renamed to prefix + <name of a sibling field>
+    pub derive_prefixes: Vec<String>,
 }
 
 pub const SHADOWS: &str = "\
@@ -107,6 +110,31 @@ pub fn prepare_in(b: &Behaviour, dna: &[u16], env: &Env) -> Option<Prepared> {
     }
     let built = gen::build(&mut d, &cfg);
     let mut spec = built.spec;
+    if !env.derive_prefixes.is_empty() {
+        for v in spec.variants.iter_mut() {
+            if v.shape != Shape::Named || v.fields.len() < 2 || !d.chance(50) {
+                continue;
+            }
+            let n = v.fields.len();
+            let i = d.pick(n);
+            let mut j = d.pick(n - 1);
+            if j >= i {
+                j += 1;
+            }
+            let base = v.fields[i].name.clone().unwrap_or_default();
+            if base.starts_with("r#") || base.is_empty() {
+                continue;
+            }
+            let mut p = d.choose(&env.derive_prefixes).clone();
+            if d.chance(25) {
+                p = format!("{p}{p}");
+            }
+            let cand = format!("{p}{base}");
+            if !v.fields.iter().any(|f| f.name.as_deref() == Some(cand.as_str())) {
+                v.fields[j].name = Some(cand);
+            }
+        }
+    }
     if !(b.adjust)(&mut spec, &mut d) {
         return None;
     }
